@@ -49,7 +49,18 @@ LargeDescs == << <<"mm", <<12, 9>>, <<9, 8>>>>, <<"mm", <<3, 10>>, <<10, 3>>>>, 
 MixDescs == << <<"mix", <<1, 3>>, <<3, 3>>>>, <<"mix", <<2, 1, 2>>, <<2, 2>>>>, <<"mix", <<1, 2>>, <<2, 2>>>>, <<"mix", <<3, 1, 3>>, <<3, 3>>>> >>
 (* a Transpose result used as a MatMul operand several times, with other products in between *)
 ReuseTrDescs == << <<"retr", <<3, 2>>, <<4, 2>>, <<2, 2>>>>, <<"retr", <<2, 2>>, <<1, 2>>, <<3, 2>>>>, <<"retr", <<2, 3, 2>>, <<2, 1, 2>>, <<1, 2>>>> >>
-Descs == MyCases(ReuseTrDescs \o LargeDescs \o MixDescs \o MatMulDescs \o DotDescs \o TrDescs \o BadDescs \o IdDescs)
+(* operands with STRUCTURE in their trailing matrices (triangular, diagonal, permutation, identity somewhere in the stack, *)
+(* zero rows): the values a kernel with a shortcut for special operands would look for.  The structure is a value domain *)
+(* of the harness (m-...); the expected product is the same symbolic sum of products as for any other values.           *)
+MDoms == <<"m-lowtri", "m-uptri", "m-diag", "m-perm", "m-ident1", "m-identlast", "m-zerorow", "m-symm">>
+MShapes == << <<<<4, 4>>, <<4, 3>>>>, <<<<2, 5, 5>>, <<5, 2>>>>, <<<<2, 4, 4>>, <<2, 4, 2>>>>, <<<<3, 3>>, <<3, 3>>>>,
+              <<<<3, 4>>, <<4, 4>>>>, <<<<2, 3, 4>>, <<2, 4, 4>>>>, <<<<2, 1, 2, 5>>, <<3, 5, 5>>>>, <<<<2, 2>>, <<3, 2, 2>>>> >>
+StructDescs == Flatten2([i \in DOMAIN MShapes |-> Flatten2([j \in DOMAIN MDoms |->
+                 LET a == MShapes[i][1] b == MShapes[i][2] ra == Len(a) rb == Len(b)
+                 IN (IF a[ra - 1] = a[ra] THEN << <<"mms", a, b, MDoms[j], "any">> >> ELSE <<>>)
+                    \o (IF b[rb - 1] = b[rb] THEN << <<"mms", a, b, "any", MDoms[j]>> >> ELSE <<>>)
+                    \o (IF a[ra - 1] = a[ra] /\ b[rb - 1] = b[rb] THEN << <<"mms", a, b, MDoms[j], MDoms[(j % Len(MDoms)) + 1]>> >> ELSE <<>>)])])
+Descs == MyCases(StructDescs \o ReuseTrDescs \o LargeDescs \o MixDescs \o MatMulDescs \o DotDescs \o TrDescs \o BadDescs \o IdDescs)
 
 D == "any,wide,zero"
 (* fourth profile: entries below 1e-240 (the library's equality tolerance) against entries above 1e240 - their products are ordinary numbers *)
@@ -58,6 +69,8 @@ DB == "any,wide,zero,huge250"
 Build(d) ==
   CASE d[1] = "mm" -> MkCase("c04", "matmul", <<In("a", d[2], FALSE), In("b", d[3], FALSE)>>, <<DA, DB>>,
                              <<Ins("matmul", NoPar, <<1, 2>>)>>, <<3>>, 0, TRUE)
+    [] d[1] = "mms" -> MkCase("c04", "matmul-structured", <<In("a", d[2], FALSE), In("b", d[3], FALSE)>>, <<d[4], d[5]>>,
+                              <<Ins("matmul", NoPar, <<1, 2>>)>>, <<3>>, 0, TRUE)
     [] d[1] = "retr" ->
          (* w: [.., n, k] (transposed to [.., k, n]); x1: [.., m1, k]; x2: [m2, k] *)
          MkCase("c04", "transpose-reused", <<In("w", d[2], FALSE), In("x", d[3], FALSE), In("z", d[4], FALSE)>>, <<"any", "any", "any">>,
